@@ -1034,7 +1034,7 @@ func (c *c16cfg) body(depth int, tier int) {
 		check(ev)
 	}
 	if dbg := os.Getenv("C16_DEBUG"); dbg != "" && strings.Contains(strings.Join(hist, ","), dbg) {
-		fmt.Fprintf(os.Stderr, "C16_DEBUG history=%v choices=%v\n", hist, vs.ChoicesSoFar())
+		fmt.Fprintf(os.Stderr, "C16_DEBUG history=%v reads=%v choices=%v\n", hist, reads, vs.ChoicesSoFar())
 	}
 	sort.Strings(hist[:0])
 	if c.subsets {
